@@ -390,7 +390,7 @@ def run_impl(case):
     res['effects'] = effects
     # the import manager config_str() would build from the imports recorded so far
     imps = gin.config._IMPORTS  # pylint: disable=protected-access
-    order = sorted(imps, key=lambda st: (st.module, not st.is_from))
+    order = list(imps)   # any order: the model sorts
     res['imlist'] = [{'k': 'imp', 'module': st.module.split('.'), 'from': bool(st.is_from), 'alias': st.alias} for st in order]
     im = gin.config.ImportManager(imps)
     res['im'] = {'imports': [[st.module.split('.'), bool(st.is_from), st.alias] for st in im.imports],
